@@ -132,6 +132,45 @@ func c06Kernels(c *hx.Ctx) {
 		e := htj2k.VerifOJPHUVLC(code)
 		c.Case(fmt.Sprintf("htj2k-uvlc %d", code), fmt.Sprintf("ok %d %d %d %d %d %d", e[0], e[1], e[2], e[3], e[4], e[5]))
 	}
+	// U-VLC decode tables as generateUVLCTables built them (exported package variables) vs the Lean model of the loops
+	for i := 0; i < len(htj2k.UVLCTbl0); i++ {
+		c.Case(fmt.Sprintf("htj2k-uvlctbl 0 %d", i), fmt.Sprintf("ok %d", uint16(htj2k.UVLCTbl0[i])))
+	}
+	for i := 0; i < len(htj2k.UVLCTbl1); i++ {
+		c.Case(fmt.Sprintf("htj2k-uvlctbl 1 %d", i), fmt.Sprintf("ok %d", uint16(htj2k.UVLCTbl1[i])))
+	}
+	c.Count("kernel:uvlc-tables")
+	// the pair layouts of ojphEncodeInitialUVLC / ojphEncodeNonInitialUVLC rebuilt from the real ojphUVLC (hook):
+	// LSB-first concatenation of (cwd, len) in the order of the vlc.encode calls in openjph_cleanup_encoder.go
+	cat := func(parts [][2]int) (int, int) {
+		v, l := 0, 0
+		for _, p := range parts {
+			v |= (p[0] & ((1 << uint(p[1])) - 1)) << uint(l)
+			l += p[1]
+		}
+		return v, l
+	}
+	for u0 := 0; u0 <= 32; u0++ {
+		for u1 := 0; u1 <= 32; u1++ {
+			// initial
+			var v, l int
+			switch {
+			case u0 > 2 && u1 > 2:
+				a, b := htj2k.VerifOJPHUVLC(u0-2), htj2k.VerifOJPHUVLC(u1-2)
+				v, l = cat([][2]int{{a[0], a[1]}, {b[0], b[1]}, {a[2], a[3]}, {b[2], b[3]}})
+			case u0 > 2 && u1 > 0:
+				a := htj2k.VerifOJPHUVLC(u0)
+				v, l = cat([][2]int{{a[0], a[1]}, {u1 - 1, 1}, {a[2], a[3]}})
+			default:
+				a, b := htj2k.VerifOJPHUVLC(u0), htj2k.VerifOJPHUVLC(u1)
+				v, l = cat([][2]int{{a[0], a[1]}, {b[0], b[1]}, {a[2], a[3]}, {b[2], b[3]}})
+			}
+			c.Case(fmt.Sprintf("htj2k-uvlc-pair 1 %d %d", u0, u1), fmt.Sprintf("ok %d %d", v, l))
+			a, b := htj2k.VerifOJPHUVLC(u0), htj2k.VerifOJPHUVLC(u1)
+			v, l = cat([][2]int{{a[0], a[1]}, {b[0], b[1]}, {a[2], a[3]}, {b[2], b[3]}})
+			c.Case(fmt.Sprintf("htj2k-uvlc-pair 0 %d %d", u0, u1), fmt.Sprintf("ok %d %d", v, l))
+		}
+	}
 	// VLC source tables as the package holds them at run time (AST literal vs evaluated package must agree)
 	for ti, tb := range [][]htj2k.VLCEntry{htj2k.VLCTbl0, htj2k.VLCTbl1} {
 		c.Case(fmt.Sprintf("htj2k-vlctbl-len %d", ti), fmt.Sprintf("ok %d", len(tb)))
